@@ -211,7 +211,13 @@ QUICK += [_alias(_C02.INSTANCES["pack_raw"], "pack_raw").name, _alias(_C02.INSTA
 THOROUGH += ["pack_raw", "pack_lz", _reg(Pipeline("T_pipe_rt_api_t2_p1", 2, RICH, splitters=SPL, preempt=1, driver="api")).name,
              _reg(Pipeline("T_pipe_rt_multi_t2_store", 2, RICH, splitters=SPL, preempt=0, driver="multi", zstd="store")).name,
              _reg(Pipeline("T_pipe_rt_single_t2", 2, RICH, splitters=SPL, preempt=0, driver="single", pack_size=Int(64, 0, 3))).name]
-for _n in ("pipe_rt_api_t1", "pipe_rt_multi_t2", "T_pipe_rt_api_t2_p1", "T_pipe_rt_multi_t2_store", "T_pipe_rt_single_t2"):
+# (5) symbolic edit scripts through the whole pipeline: the second sample's contig is the reference contig with one substitution at EVERY
+#     position with EVERY code (incl. N, an IUPAC code, the unknown-letter code 30); T: whole-contig reverse complement x one deletion x one insertion
+from harness.pipe import TWO as _TWO
+QUICK.append(_reg(Pipeline("pipe_edit_subst_t1", 1, _TWO, splitters=SPL, preempt=0, driver="api", edits=[("subst", 1, 0)])).name)
+THOROUGH += ["pipe_edit_subst_t1", _reg(Pipeline("T_pipe_edit_indel_rc_t1", 1, _TWO, splitters=SPL, preempt=0, driver="api", edits=[("rc", 1, 0), ("del", 1, 0), ("ins", 1, 0)])).name,
+             _reg(Pipeline("T_pipe_edit_subst_multi_t2", 2, _TWO, splitters=SPL, preempt=0, driver="multi", edits=[("subst", 1, 0)])).name]
+for _n in ("pipe_rt_api_t1", "pipe_rt_multi_t2", "T_pipe_rt_api_t2_p1", "T_pipe_rt_multi_t2_store", "T_pipe_rt_single_t2", "pipe_edit_subst_t1", "T_pipe_edit_indel_rc_t1", "T_pipe_edit_subst_multi_t2"):
     INSTANCES[_n].required_witnesses = ("finalized", "extracted")
 
 
